@@ -553,34 +553,49 @@ def build(hist, ctx=None):
 # reads
 
 
-def read_keys(shape, full=None):
-    """Region-read alphabet.  thorough: the full product of every key form per mode.  quick: the full product of the
-    unit-step forms, plus every stepped / reversed / relative-bound slice form in every mode it is assigned to, combined
-    with the two basic forms (full slice, integer) of the other modes, plus the all-stepped key."""
+def BASIC_(s):
+    """Basic unit-step key forms of a mode of extent s (combined with the stepped / reversed / relative slice forms)."""
+    return [S_(None, None), 0, S_(0, 1), (L_(s - 1, 0) if s >= 2 else L_(0))]
+
+
+def read_keys(shape, full=None, legacy=False):
+    """Region-read alphabet.
+    Per mode the unit-step key forms (thorough: int 0 / 1 / -1, full / bounded / open-ended slice, two index lists; quick: int,
+    negative int on the first mode, full and bounded slice, one index list) are combined as a full product.  The slice forms
+    that use the step and relative bounds (stepped ::2, reversed ::-1, relative -1:) are added on top: thorough - every such
+    form in every mode x the product of four basic forms (full slice, int, bounded slice, index list) of the other modes;
+    quick - stepped in every mode, reversed on the first, relative on the second mode x the product of (full slice, int) of
+    the other modes; both - the keys using one such form in all modes.  legacy=True: the unit-step product only (used by the
+    thorough tier on its many depth-3 states)."""
     N = len(shape)
-    per_mode, extra = [], []
+    per_mode, extra, rest_items = [], [], []
     full = (TIER == "thorough") if full is None else full
     for m, s in enumerate(shape):
         if full:
-            items = [0, -1, S_(None, None), S_(0, 1), S_(None, None, 2), S_(None, None, -1), S_(-1, None)]
+            items = [0, -1, S_(None, None), S_(0, 1)]
             if s >= 2:
                 items += [1, S_(1, None), L_(0, s - 1), L_(s - 1, 0)]
             else:
                 items += [L_(0)]
-            extra.append([])
+            extra.append([S_(None, None, 2), S_(None, None, -1), S_(-1, None)])
+            rest_items.append(BASIC_(s))
         else:   # quick: every key form once per mode (int, negative int, unbounded / bounded slice, index list)
             items = [0, S_(None, None), S_(0, 1)] + ([-1] if m == 0 else [])
             items += [L_(s - 1, 0)] if s >= 2 else [L_(0)]
             # stepped slice in every mode; reversed slice on the first, relative (negative) bound on the second mode
             extra.append([S_(None, None, 2)] + ([S_(None, None, -1)] if m == 0 else []) + ([S_(-1, None)] if m == 1 else []))
+            rest_items.append(BASIC_(s)[:2])
         per_mode.append(items)
     keys = [list(k) for k in itertools.product(*per_mode)]
+    if legacy:
+        return keys
     for m in range(N):
         for it in extra[m]:
-            for rest in itertools.product([S_(None, None), 0], repeat=N - 1):
+            for rest in itertools.product(*(rest_items[:m] + rest_items[m + 1:])):
                 keys.append(list(rest[:m]) + [it] + list(rest[m:]))
-    if not full and N >= 2:
-        keys.append([S_(None, None, 2) for _ in range(N)])
+    if N >= 2:
+        for it in ([S_(None, None, 2), S_(None, None, -1), S_(-1, None)] if full else [S_(None, None, 2)]):
+            keys.append([list(it) for _ in range(N)])
     return keys
 
 
@@ -593,7 +608,9 @@ def check_reads(ctx, hist, T, S, R):
     n = len(cl)
     allsubs = np.array(cl, dtype=int).reshape(n, N)
     region_wants = []
-    for key in read_keys(shape, full=(TIER == "thorough" and len(hist["labels"]) <= 2)):
+    # thorough: the full region alphabet on states up to depth 2, the (unit-step) quick one on the many depth-3 states
+    deep = TIER == "thorough" and len(hist["labels"]) > 2
+    for key in read_keys(shape, full=(TIER == "thorough" and not deep), legacy=deep):
         if all(isinstance(it, int) for it in key):
             continue
         try:
@@ -665,7 +682,6 @@ def check_reads(ctx, hist, T, S, R):
             rd(lambda: X.nnz, float(np.count_nonzero(a)), "derived_nnz")
             rd(lambda: X == 0, (a == 0).astype(float), "derived_eq0")
             rd(lambda: X.innerprod(X), float(np.sum(a * a)), "derived_innerprod")
-        # thorough: the full region alphabet on states up to depth 2, the quick one on the (many) depth-3 states
         for key, want in region_wants:
             nl = sum(1 for it in key if isinstance(it, list) and it[0] == "l")
             stepped = any(isinstance(it, list) and it[0] == "s" and len(it) > 3 for it in key)
@@ -718,8 +734,11 @@ def explore(tier, seed, jobs, totals):
                     f"longer keys, regions of ints/bounded+unbounded+stepped+reversed+relative-bound slices/index lists, p x N subscript arrays incl. unsorted "
                     f"and repeated rows and mixed zero/non-zero values, linear indices and slices; rhs zero/scalar/array/tensor); "
                     f"depth {MAXD}; all reads (subscripts, negative, subscript arrays, linear, linear slices, regions) on every state; "
-                    + ("region reads: full product of 8-11 key forms per mode (int, negative int, full / bounded / stepped / "
-                       "reversed / relative-bound slice, index lists) on states up to depth 2"
+                    + ("region reads: full product of 5-8 unit-step key forms per mode (int, negative int, full / bounded / "
+                       "open-ended slice, index lists) plus every stepped (::2) / reversed (::-1) / relative-bound (-1:) slice in "
+                       "every mode x the product of 4 basic forms (full slice, int, bounded slice, index list) of the other modes, "
+                       "plus each such form in all modes at once, on states up to depth 2; the unit-step quick product on "
+                       "depth-3 states"
                        if tier == "thorough" else
                        "region reads: full product of the unit-step key forms per mode plus every stepped (::2, all modes) / "
                        "reversed (::-1, first mode) / relative-bound (-1:, second mode) slice combined with full-slice / "
